@@ -205,21 +205,23 @@ Fixpoint write_batch (st : rstate) (ws : list (N * list N)) : rstate * list wres
 
 Inductive rev :=
 | Batch (ws : list (N * list N))             (* writes (writer, payload) handed to the queue in this order *)
-| BatchClose (ws : list (N * list N)) (status : N)
+| BatchClose (ws : list (N * list N)) (status : N) (cerr : bool)
                                              (* the same, the first held in flight; then CloseWithStatus *)
 | Deliver (bs : list N)                      (* the current transport's Read returns bs to the read loop *)
 | ReadFail (normal : bool)                   (* the current transport's Read returns an error
                                                 (normal: one that Is ErrConnectionNormalClose) *)
 | ReadStart (take : bool)                    (* Transport.Read is called; [take] resolves the select race after cancel *)
 | ReadJoin                                   (* what that Read call returned *)
-| CloseE (status : N).
+| CloseE (status : N) (cerr : bool).         (* CloseWithStatus; [cerr]: the underlying connection's
+                                                CloseWithStatus returns an error (it is torn down all the same) *)
 
 Inductive rout :=
 | OBatch (rs : list wres)
 | OUnit
 | OPong (ok : bool)                          (* a ping was answered; the pong was accepted *)
 | OReadFail (alive : bool)                   (* the read loop survived the failure (redial succeeded) *)
-| ORead (r : rres).
+| ORead (r : rres)
+| OClose (err : bool).                       (* CloseWithStatus returned an error *)
 
 Definition reading (st : rstate) : bool := negb (rs_cancel st) && negb (rs_rdead st).
 
@@ -257,7 +259,7 @@ Definition read_start (st : rstate) (take : bool) : rstate :=
 Definition rstep (st : rstate) (e : rev) : rstate * rout :=
   match e with
   | Batch ws => let r := write_batch st ws in (fst r, OBatch (snd r))
-  | BatchClose ws status => (do_close st status, OBatch (map (fun _ => WErr) ws))
+  | BatchClose ws status _ => (do_close st status, OBatch (map (fun _ => WErr) ws))
   | Deliver bs =>
       if reading st then
         if is_ping bs
@@ -281,7 +283,8 @@ Definition rstep (st : rstate) (e : rev) : rstate * rout :=
       | PWait => (st, ORead RBlocked)
       | PNone => (st, OUnit)
       end
-  | CloseE status => (do_close st status, OUnit)
+  | CloseE status cerr => (do_close st status, OClose cerr)
+                                 (* r.cancel() whatever the underlying close returned; its error is handed on *)
   end.
 
 Fixpoint rrun (st : rstate) (evs : list rev) : rstate * list rout :=
@@ -304,7 +307,9 @@ Record rc_case := mkRcCase {
   rk_evs : list rev;
   rk_outs : list rout;                            (* observed: one outcome per event *)
   rk_incs : list inc_o;                           (* observed: per transport handed out *)
-  rk_dials : list (N * bool)                      (* observed: (id code, Reconnect flag) per attempt; code 0 = wrong id *)
+  rk_dials : list (N * bool);                     (* observed: (id code, Reconnect flag) per attempt; code 0 = wrong id *)
+  rk_done : bool;                                 (* observed at the end: the transport's context is cancelled *)
+  rk_postclose : N                                (* observed: dial attempts made after the first Close returned *)
 }.
 
 Definition wres_eqb (a b : wres) : bool :=
@@ -322,6 +327,7 @@ Definition rout_eqb (a b : rout) : bool :=
   | OPong x, OPong y => Bool.eqb x y
   | OReadFail x, OReadFail y => Bool.eqb x y
   | ORead x, ORead y => rres_eqb x y
+  | OClose x, OClose y => Bool.eqb x y
   | _, _ => false
   end.
 Definition dial_eqb (a b : N * bool) : bool := (fst a =? fst b) && Bool.eqb (snd a) (snd b).
@@ -353,6 +359,7 @@ Definition rc_corr (c : rc_case) : bool :=
        let mi := map inc_obs (n_incs (rs_net (fst r))) in
        let md := n_dials (rs_net (fst r)) in
        list_beq _ rout_eqb (snd r) (rk_outs c)
+       && Bool.eqb (rs_cancel (fst r)) (rk_done c) && (rk_postclose c =? 0)
        && (if rk_free c && rs_cancel (fst r)
            then prefix_beq inc_log_eqb mi (rk_incs c)
                 && forallb (fun o => match fst (fst o) with [] => true | _ => false end)
@@ -374,7 +381,7 @@ Fixpoint oks (ws : list (N * list N)) (rs : list wres) : list (list N) :=
 Definition accepted_of (eo : rev * rout) : list (list N) :=
   match eo with
   | (Batch ws, OBatch rs) => oks ws rs
-  | (BatchClose ws _, OBatch rs) => oks ws rs
+  | (BatchClose ws _ _, OBatch rs) => oks ws rs
   | (Deliver _, OPong true) => [pong]
   | _ => []
   end.
@@ -383,7 +390,7 @@ Definition accepted_stream (tr : list (rev * rout)) : list (list N) := concat (m
 Definition all_payloads (tr : list (rev * rout)) : list (list N) :=
   concat (map (fun eo => match fst eo with
                          | Batch ws => map snd ws
-                         | BatchClose ws _ => map snd ws
+                         | BatchClose ws _ _ => map snd ws
                          | _ => [] end) tr).
 Fixpoint nodupb (l : list (list N)) : bool :=
   match l with
@@ -429,7 +436,7 @@ Definition disc_step (d : disc) (eo : rev * rout) : option disc :=
   match eo with
   | (Batch ws, OBatch rs) =>
       if Nat.eqb (length ws) (length rs) then wres_all d rs else None
-  | (BatchClose ws _, OBatch rs) =>
+  | (BatchClose ws _ _, OBatch rs) =>
       if Nat.eqb (length ws) (length rs) && forallb (fun r => match r with WErr => true | _ => false end) rs
       then Some (d_over d) else None
   | (Deliver bs, OUnit) =>
@@ -463,7 +470,7 @@ Definition disc_step (d : disc) (eo : rev * rout) : option disc :=
       | PNone => None
       end
   | (ReadJoin, OUnit) => match d_pr d with PNone => Some d | _ => None end
-  | (CloseE _, OUnit) => Some (d_over d)
+  | (CloseE _ _, OClose _) => Some (d_over d)
   | _ => None
   end.
 Fixpoint disc_run (d : disc) (tr : list (rev * rout)) : bool :=
@@ -499,6 +506,11 @@ Definition once_in_order (tr : list (rev * rout)) (incs : list inc_o) : bool :=
   then list_beq _ list_N_eqb (filter (fun b => memb_bs b okw) acc) okw
   else true.
 
+(* Close is final whatever the underlying close reported: once Close (alone or with writes in
+   flight) has been called the context is done and no dial attempt is made any more. *)
+Definition closed_trace (tr : list (rev * rout)) : bool :=
+  existsb (fun eo => match fst eo with CloseE _ _ | BatchClose _ _ _ => true | _ => false end) tr.
+
 Definition rc_ok (c : rc_case) : bool :=
   if negb (rk_new c) then true
   else
@@ -506,7 +518,8 @@ Definition rc_ok (c : rc_case) : bool :=
     Nat.eqb (length (rk_evs c)) (length (rk_outs c))
     && once_in_order tr (rk_incs c)
     && disc_run disc_init tr
-    && dials_ok (rc_tid (rk_cfg c)) (S (head_fails (rc_script (rk_cfg c)))) (rk_dials c).
+    && dials_ok (rc_tid (rk_cfg c)) (S (head_fails (rc_script (rk_cfg c)))) (rk_dials c)
+    && (if closed_trace tr then rk_done c && (rk_postclose c =? 0) else true).
 
 Definition rc_judge (c : rc_case) : N :=
   (if rc_corr c then 0 else 1) + (if rc_ok c then 0 else 2).
@@ -514,8 +527,9 @@ Definition rc_judge (c : rc_case) : N :=
 (* the case the model itself produces *)
 Definition model_case (c : rcfg) (evs : list rev) : rc_case :=
   match rc_new c with
-  | None => mkRcCase c false false [] [] [] []
+  | None => mkRcCase c false false [] [] [] [] false 0
   | Some st =>
       let r := rrun st evs in
       mkRcCase c false true evs (snd r) (map inc_obs (n_incs (rs_net (fst r)))) (n_dials (rs_net (fst r)))
+               (rs_cancel (fst r)) 0
   end.
